@@ -46,7 +46,25 @@ class N(object):
         self.kind = j.get('kind')
         self.parent = parent
         self.front = front
-        self.kids = [N(c, self, front) for c in j.get('inner', []) if c.get('kind')]
+        inner = j.get('inner', [])
+        if self.kind == 'ForStmt' and len(inner) == 5 and not inner[0].get('kind') and not inner[1].get('kind') and inner[2].get('kind') \
+                and inner[4].get('kind'):
+            # `for (; cond; inc) body` is `while (cond) { body; inc; }` (the rules know counted loops in the while form)
+            incs = []
+
+            def split(e):
+                if e.get('kind') == 'BinaryOperator' and e.get('opcode') == ',':
+                    for x in e.get('inner', []):
+                        split(x)
+                elif e.get('kind'):
+                    incs.append(e)
+            split(inner[3])
+            body = inner[4]
+            stmts = list(body.get('inner', [])) if body.get('kind') == 'CompoundStmt' else [body]
+            comp = {'kind': 'CompoundStmt', 'range': body.get('range', j.get('range')), 'inner': stmts + incs, 'id': 'synthetic'}
+            self.kind = 'WhileStmt'
+            inner = [inner[2], comp]
+        self.kids = [N(c, self, front) for c in inner if c.get('kind')]
 
     @property
     def name(self):
@@ -113,10 +131,32 @@ class N(object):
     def strip(self):
         """Skip wrappers that carry no meaning for the rules."""
         n = self
-        while n.kind in ('ImplicitCastExpr', 'ParenExpr', 'ExprWithCleanups', 'MaterializeTemporaryExpr',
-                         'ConstantExpr', 'CXXBindTemporaryExpr') and len(n.kids) >= 1:
-            n = n.kids[-1] if n.kind == 'ConstantExpr' else n.kids[0]
+        for _ in range(12):
+            while n.kind in ('ImplicitCastExpr', 'ParenExpr', 'ExprWithCleanups', 'MaterializeTemporaryExpr',
+                             'ConstantExpr', 'CXXBindTemporaryExpr') and len(n.kids) >= 1:
+                n = n.kids[-1] if n.kind == 'ConstantExpr' else n.kids[0]
+            # a `const` local with an initialiser stands for that initialiser (hoisting a sub-expression into a named
+            # constant does not change what the rules see)
+            d = n.const_local_init() if n.kind == 'DeclRefExpr' else None
+            if d is None:
+                break
+            n = d
         return n
+
+    def const_local_init(self):
+        r = self.j.get('referencedDecl')
+        if not r or r.get('kind') != 'VarDecl':
+            return None
+        t = (r.get('type') or {}).get('qualType') or ''
+        if not (t.startswith('const ') and not t.rstrip().endswith(('*', '&'))) and not t.rstrip().endswith('*const') \
+                and not t.rstrip().endswith('* const'):
+            return None
+        decl = self.front.var_decl(r.get('id'))
+        if decl is None or not decl.kids or decl.j.get('init') is None:
+            return None
+        if decl.parent is None or decl.parent.kind != 'DeclStmt':
+            return None          # parameters, globals, loop variables
+        return decl.kids[-1]
 
     def site(self):
         f = self.file or '?'
@@ -199,6 +239,14 @@ class CxxFront(object):
             raise AnalysisError('clang front-end found only %d function bodies (expected > 100)' % len(self.funcs))
 
     # -- locations -----------------------------------------------------------------------------
+    def var_decl(self, did):
+        if not hasattr(self, '_var_decls'):
+            self._var_decls = {}
+            for f in self.funcs:
+                for d in f.node.find('VarDecl'):
+                    self._var_decls[d.j.get('id')] = d
+        return self._var_decls.get(did)
+
     def _resolve_locs(self, root):
         cur = [None, None]
 
